@@ -1,10 +1,11 @@
 /-
 C01/C02/C05/C14/C15 — whole documents: enums, tables (columns in any form that is read back, possibly under a comment),
-standalone references between their columns, table groups over these tables, sticky notes — rendered and read back to the same database
+inline and standalone references between their columns, table groups over these tables, sticky notes — rendered and read back to the same database
 (`document_roundtrip`, and its instance for columns with settings `flags_document_roundtrip_partial`).
 -/
 import PyDBMLProofs.Props.C02Group
 import PyDBMLProofs.Props.C02FlagsTables
+import PyDBMLProofs.Props.C02Inline
 namespace PyDBML
 namespace C02
 open Lex Grammar Build
@@ -15,6 +16,9 @@ variable {σ : Type}
 structure DocSpec (σ : Type) where
   enums : List ESpec := []
   tables : List (FTab σ)
+  /-- the references written inline, among the settings of their first column, in document order -/
+  inl : List RSpec := []
+  /-- the standalone references -/
   refs : List RSpec := []
   /-- table groups: a name and the POSITIONS of the member tables -/
   groups : List (Str × List Nat) := []
@@ -29,7 +33,8 @@ def ColForm.gnames (F : ColForm σ) (ts : List (FTab σ)) (g : Str × List Nat) 
 
 /-- the database such a document stands for -/
 def DocSpec.db (F : ColForm σ) (ap : Bool) (d : DocSpec σ) : Db :=
-  { enums := d.enums.map mkEnum, tables := d.tables.map F.mkTable, refs := d.refs.map mkRef,
+  { enums := d.enums.map mkEnum, tables := d.tables.map F.mkTable,
+    refs := d.inl.map (fun r => mkRefB (r, true)) ++ d.refs.map mkRef,
     groups := d.groups.map mkGroup, sticky := d.sticky, allowProps := ap }
 
 structure DocOK (F : ColForm σ) (ap : Bool) (d : DocSpec σ) : Prop where
@@ -43,7 +48,13 @@ structure DocOK (F : ColForm σ) (ap : Bool) (d : DocSpec σ) : Prop where
   /-- no column's type text names a declared enum (it would then hold the enum) -/
   noShadow : ∀ t ∈ d.tables, F.noShadow (d.enums.map mkEnum) t
   refsIn : ∀ r ∈ d.refs, F.RSpecIn d.tables r
-  refsNodup : d.refs.Nodup
+  inlIn : ∀ r ∈ d.inl, F.RSpecIn d.tables r
+  /-- a many-to-many reference is never shown inline (`Reference.inline`) -/
+  inlKind : ∀ r ∈ d.inl, r.kind ≠ .manyToMany
+  /-- what the columns write inline, in document order, are the names of the inline references -/
+  inlWritten : F.written d.tables = d.inl.map (F.iwritten d.tables)
+  /-- no two references, inline or standalone, between the same columns with the same kind -/
+  refsNodup : (d.inl ++ d.refs).Nodup
   /-- group names are quoted names, pairwise different; members are tables of the document, none listed twice -/
   groups : ∀ g ∈ d.groups, NameOK g.1 ∧ g.2.Nodup ∧ ∀ i ∈ g.2, i < d.tables.length
   groupNames : d.groups.Pairwise (fun a b => a.1 ≠ b.1)
@@ -264,22 +275,32 @@ theorem DocSpec.build (F : ColForm σ) (ap : Bool) (d : DocSpec σ) (h : DocOK F
   have hP : projectBp (d.elems F) = none := by
     simp [projectBp, DocSpec.elems, mkEnumElem, ColForm.mkElem, mkRefElem, mkStickyElem, List.filterMap_append,
       List.filterMap_map, Function.comp_def]
-  have hR : refBlueprints (d.elems F) = d.refs.map fun r => refBp (F.rtext d.tables r) := by
+  have hR : refBlueprints (d.elems F)
+      = (d.inl.map (fun r => (r, true)) ++ d.refs.map (fun r => (r, false))).map (F.bpB d.tables) := by
     have h1 : refBlueprints (d.enums.map mkEnumElem) = [] := by
       simp [refBlueprints, mkEnumElem, List.flatMap_map]
-    have h2 : refBlueprints (d.tables.map F.mkElem) = [] := by
-      simp only [refBlueprints, ColForm.mkElem, List.flatMap_map, List.flatMap_eq_nil_iff]
-      intro t _
-      simp only [ColForm.tableBpC, List.flatMap_eq_nil_iff]
-      intro b hb
-      obtain ⟨s, _, rfl⟩ := List.mem_map.mp hb
-      simp [F.norefs]
+    have h2 : refBlueprints (d.tables.map F.mkElem) = d.inl.map (fun r => F.bpB d.tables (r, true)) := by
+      have hw : refBlueprints (d.tables.map F.mkElem) = (F.written d.tables).map ibp := by
+        unfold ColForm.written
+        simp only [refBlueprints, ColForm.mkElem, List.flatMap_map, List.map_flatMap, ColForm.tableBpC]
+        apply flatMap_congr_mem
+        intro t ht
+        apply flatMap_congr_mem
+        intro s hs
+        have hn : (F.bp s).name = F.cname s :=
+          (buildColumn_name _ _ _ (F.build ap (d.enums.map mkEnum) s ((h.tables t ht).2.1 s hs) (h.noShadow t ht s hs))).symm
+        rw [F.bp_refs, List.map_map, List.map_map]
+        apply List.map_congr_left
+        intro r _
+        simp [ibp, hn]
+      rw [hw, h.inlWritten, List.map_map]
+      rfl
     have h4 : refBlueprints (d.sticky.map mkStickyElem) = [] := by
       simp [refBlueprints, mkStickyElem, List.flatMap_map]
     have h5 : refBlueprints (d.groups.map fun g => Bp.Elem.group (groupBpOf g.1 (F.gnames d.tables g))) = [] := by
       simp [refBlueprints, List.flatMap_map]
     simp only [DocSpec.elems, refBlueprints_append, h1, h2, h4, h5, refBlueprints_refElems]
-    simp [List.map_map, Function.comp_def]
+    simp [List.map_map, Function.comp_def, ColForm.bpB_false]
   have hFe := foldlM_enums d.enums [] (by simpa using h.enumNames)
   simp only [List.map_nil, List.nil_append] at hFe
   have hFt := F.foldlM_tables ap (d.enums.map mkEnum) d.tables [] (by simpa using h.resolvable.tnames)
@@ -297,10 +318,22 @@ theorem DocSpec.build (F : ColForm σ) (ap : Bool) (d : DocSpec σ) (h : DocOK F
     { tables := d.tables.map F.mkTable, enums := d.enums.map mkEnum, allowProps := ap } rfl d.groups []
     (by simpa using h.groupNames) (fun g hg => (h.groups g hg).2)
   simp only [List.map_nil, List.nil_append] at hFg
-  have hRf := F.foldlM_refs d.tables h.resolvable
+  have hRf := F.foldlM_refsB d.tables h.resolvable
     { tables := d.tables.map F.mkTable, enums := d.enums.map mkEnum, allowProps := ap, groups := d.groups.map mkGroup,
-      sticky := d.sticky, project := none } rfl d.refs [] (by simpa using h.refsIn) (by simpa using h.refsNodup)
+      sticky := d.sticky, project := none } rfl (d.inl.map (fun r => (r, true)) ++ d.refs.map (fun r => (r, false))) []
+    (by
+      intro x hx
+      simp only [List.nil_append, List.mem_append, List.mem_map] at hx
+      rcases hx with ⟨r, hr, rfl⟩ | ⟨r, hr, rfl⟩
+      · exact h.inlIn r hr
+      · exact h.refsIn r hr)
+    (by simpa [List.map_map, Function.comp_def] using h.refsNodup)
   simp only [List.map_nil, List.nil_append] at hRf
+  have hmk : (d.inl.map (fun r => (r, true)) ++ d.refs.map (fun r => (r, false))).map mkRefB
+      = d.inl.map (fun r => mkRefB (r, true)) ++ d.refs.map mkRef := by
+    simp only [List.map_append, List.map_map]
+    rfl
+  rw [hmk] at hRf
   unfold buildDatabase
   simp only [hE, hT, hG, hS, hP, hR, hFe, hFt, hFg, hst, List.foldlM_nil, pure, Except.pure, bind, Except.bind, buildProject]
   rw [hRf]
@@ -388,31 +421,26 @@ theorem renderGroup_ok (F : ColForm σ) (ap : Bool) (d : DocSpec σ) (g : Str ×
 
 theorem DocSpec.render (F : ColForm σ) (ap : Bool) (d : DocSpec σ) (h : DocOK F ap d) :
     Dbml.renderDb (d.db F ap) = .ok (joinWith (lit "\n\n") (d.texts F)) := by
-  have hni : ∀ r ∈ (d.db F ap).refs, r.inline = false := by
-    intro r hr
-    simp only [DocSpec.db, List.mem_map] at hr
-    obtain ⟨q, _, rfl⟩ := hr
-    simp [mkRef, Ref.inline]
   have henums : (d.db F ap).enums.map Dbml.renderEnum = d.enums.map fun e => enumText e.1 e.2 := by
     simp only [DocSpec.db, List.map_map]
     apply List.map_congr_left
     intro e he
     exact renderEnum_plain e (h.enums e he)
   have htabs : (List.range (d.db F ap).tables.length).mapM (Dbml.renderTable (d.db F ap)) = .ok (d.tables.map F.tabText) := by
-    have := range_mapM_form F.mkTable "table position" F.tabText d.tables
+    have := range_mapM_form_pos F.mkTable "table position" F.tabText d.tables
       (fun i t => Dbml.renderTableBody (d.db F ap) i t)
-      (fun i t ht => F.renderTableBody_ok (d.db F ap) hni i t.name t.cols t.comment (h.tables t ht).2.1 (h.tables t ht).2.2.1
-        (h.tables t ht).2.2.2)
+      (fun i t ht => F.renderTableBody_ok (d.db F ap) i t.name t.cols t.comment
+        (fun ci s hs => F.inline_rendered d.tables h.resolvable (d.db F ap) rfl d.inl d.refs rfl h.inlIn h.inlKind
+          h.inlWritten i ci t s ht hs)
+        (h.tables t (List.mem_of_getElem? ht)).2.1 (h.tables t (List.mem_of_getElem? ht)).2.2.1
+        (h.tables t (List.mem_of_getElem? ht)).2.2.2)
     unfold Dbml.renderTable
     exact this
   have hrefs : ((d.db F ap).refs.filter (!·.inline)).mapM (Dbml.renderRef (d.db F ap))
       = .ok ((d.refs.map (F.rtext d.tables)).map refText) := by
-    have hfil : (d.db F ap).refs.filter (!·.inline) = (d.db F ap).refs := by
-      rw [List.filter_eq_self]
-      intro r hr
-      simp [hni r hr]
+    have hfil : (d.db F ap).refs.filter (!·.inline) = d.refs.map mkRef := filter_not_inline d.inl d.refs h.inlKind
     rw [hfil]
-    simp only [DocSpec.db, List.mapM_map, List.map_map]
+    simp only [List.mapM_map, List.map_map]
     have : ∀ l : List RSpec, (∀ r ∈ l, F.RSpecIn d.tables r) →
         l.mapM (Dbml.renderRef (d.db F ap) ∘ mkRef) = .ok (l.map (refText ∘ F.rtext d.tables)) := by
       intro l
@@ -455,10 +483,12 @@ theorem DocSpec.render (F : ColForm σ) (ap : Bool) (d : DocSpec σ) (h : DocOK 
 
 /-- **the round trip of whole documents.**  A database holding any number of enums (schema public, pairwise different
     names, plain items), any positive number of tables (pairwise different names, columns in a form that is read back,
-    each table possibly under a one-line comment), any number of pairwise different standalone single-column references
-    between their columns and any number of sticky notes is rendered to DBML and parsed back to exactly the same
-    database: every element comes back once, in its section, in order, and the references are linked to the columns
-    they were written from. -/
+    each table possibly under a one-line comment), any number of pairwise different single-column references between
+    their columns - written inline among the settings of their first column (`d.inl`, not many-to-many: those are never
+    shown inline) or standalone (`d.refs`) -, any number of table groups and any number of sticky notes is rendered to
+    DBML and parsed back to exactly the same database: every element comes back once, in its section, in order, the
+    references are linked to the columns they were written from, and a reference written inline comes back as an
+    inline reference of the same column. -/
 theorem document_roundtrip (F : ColForm σ) (ap : Bool) (d : DocSpec σ) (h : DocOK F ap d) :
     ∃ text, Dbml.renderDb (d.db F ap) = .ok text ∧ Build.parse ap text = .ok (d.db F ap) := by
   refine ⟨joinWith (lit "\n\n") (d.texts F), d.render F ap h, ?_⟩
@@ -522,12 +552,14 @@ abbrev FlagDoc := DocSpec FCol
       with any positive number of columns carrying any subset of `pk`, `increment`, `unique`, `not null`, possibly an
       integer default, a one-line note and (properties switch on) any number of arbitrary properties, whose type text
       names no declared enum,
-    * any number of pairwise different standalone single-column references between columns of these tables,
+    * any number of pairwise different single-column references between columns of these tables, each either written
+      INLINE in its first column (`ref: > "t"."c"` among the settings; `d.inl`, in document order, none many-to-many;
+      `hwritten` says that the columns' `irefs` are exactly the names of these) or standalone (`d.refs`),
     * any number of table groups with pairwise different quoted names over these tables (no table twice in a group),
     * any number of sticky notes with a bare name and a one-line text,
     is rendered to DBML and parsed back to exactly the same database - every element once, in its section, in order; the
     comments on the same tables; the references linked, by table and column name, to the very columns they were written
-    from.  The hypotheses on names are exactly the recorded findings (no dot in a table name, a column name is one
+    from, the inline ones still inline on the same column and before the standalone ones.  The hypotheses on names are exactly the recorded findings (no dot in a table name, a column name is one
     comma-free piece that survives `strip('() ')`, no two columns of a table with one name). -/
 theorem flags_document_roundtrip_partial (ap : Bool) (d : FlagDoc)
     (henums : ∀ e ∈ d.enums, NameOK e.1 ∧ (∀ n ∈ e.2, NameOK n) ∧ e.2 ≠ [])
@@ -537,9 +569,12 @@ theorem flags_document_roundtrip_partial (ap : Bool) (d : FlagDoc)
     (hcn : ∀ t ∈ d.tables, t.cols.Pairwise (fun a b => a.name ≠ b.name))
     (hcp : ∀ t ∈ d.tables, ∀ c ∈ t.cols, splitComma c.name = [c.name] ∧ stripParenSpace c.name = c.name)
     (hshadow : ∀ t ∈ d.tables, ∀ c ∈ t.cols, ∀ e ∈ d.enums, e.1 ≠ c.type)
-    (hin : ∀ r ∈ d.refs, ∃ ta tb, d.tables[r.t1]? = some ta ∧ d.tables[r.t2]? = some tb ∧ r.c1 < ta.cols.length
+    (hin : ∀ r ∈ d.inl ++ d.refs, ∃ ta tb, d.tables[r.t1]? = some ta ∧ d.tables[r.t2]? = some tb ∧ r.c1 < ta.cols.length
       ∧ r.c2 < tb.cols.length)
-    (hnd : d.refs.Nodup)
+    (hkind : ∀ r ∈ d.inl, r.kind ≠ .manyToMany)
+    (hwritten : (d.tables.flatMap fun t => t.cols.flatMap fun s => s.irefs.map fun r => (t.name, s.name, r))
+      = d.inl.map (flagForm.iwritten d.tables))
+    (hnd : (d.inl ++ d.refs).Nodup)
     (hgroups : ∀ g ∈ d.groups, NameOK g.1 ∧ g.2.Nodup ∧ ∀ i ∈ g.2, i < d.tables.length)
     (hgnames : d.groups.Pairwise (fun a b => a.1 ≠ b.1))
     (hsticky : ∀ s ∈ d.sticky, s.name ≠ [] ∧ s.name.all isNameChar = true ∧ Plain s.text ∧ hasTriple s.text = false
@@ -553,7 +588,8 @@ theorem flags_document_roundtrip_partial (ap : Bool) (d : FlagDoc)
         intro e he
         obtain ⟨e0, he0, rfl⟩ := List.mem_map.mp he
         exact hshadow t ht s hs e0 he0),
-      refsIn := hin, refsNodup := hnd, groups := hgroups, groupNames := hgnames, sticky := hsticky }
+      refsIn := fun r hr => hin r (by simp [hr]), inlIn := fun r hr => hin r (by simp [hr]), inlKind := hkind,
+      inlWritten := hwritten, refsNodup := hnd, groups := hgroups, groupNames := hgnames, sticky := hsticky }
 
 /-- the rendered text of a small document of every covered kind (a test of the statement on one literal) -/
 example : joinWith (lit "\n\n") (DocSpec.texts flagForm
@@ -564,6 +600,23 @@ example : joinWith (lit "\n\n") (DocSpec.texts flagForm
         groups := [(lit "g1", [1, 0])],
         sticky := [{ name := lit "todo", text := lit "check" }] })
     = lit "Enum \"status\" {\n    \"new\"\n    \"done\"\n}\n\nTable \"a\" {\n    \"id\" int [pk]\n}\n\n// child\nTable \"b\" {\n    \"a id\" int [default: 1]\n}\n\nRef {\n    \"b\".\"a id\" > \"a\".\"id\"\n}\n\nTableGroup \"g1\" {\n    \"b\"\n    \"a\"\n}\n\nNote todo {\n    'check'\n}" := by
+  decide +kernel
+
+/-- non-vacuity of the hypotheses on inline references: table `b` hosts `ref: > "a"."id"` on its first column and
+    `ref: - "a"."id"` on its second; together with a standalone reference between the same columns of another kind -/
+example :
+    let d : FlagDoc :=
+      { tables := [{ name := lit "a", cols := [{ name := lit "id", type := lit "int", pk := true }] },
+                   { name := lit "b", cols := [{ name := lit "a id", type := lit "int", notNull := true,
+                                                  irefs := [{ kind := .manyToOne, tn := lit "a", cn := lit "id" }] },
+                                                { name := lit "x", type := lit "int",
+                                                  irefs := [{ kind := .oneToOne, tn := lit "a", cn := lit "id" }] }] }],
+        inl := [{ kind := .manyToOne, t1 := 1, c1 := 0, t2 := 0, c2 := 0 }, { kind := .oneToOne, t1 := 1, c1 := 1, t2 := 0, c2 := 0 }],
+        refs := [{ kind := .oneToMany, t1 := 1, c1 := 0, t2 := 0, c2 := 0 }] }
+    (d.tables.flatMap fun t => t.cols.flatMap fun s => s.irefs.map fun r => (t.name, s.name, r)) = d.inl.map (flagForm.iwritten d.tables)
+      ∧ (∀ r ∈ d.inl, r.kind ≠ .manyToMany) ∧ (d.inl ++ d.refs).Nodup
+      ∧ joinWith (lit "\n\n") (d.texts flagForm)
+        = lit "Table \"a\" {\n    \"id\" int [pk]\n}\n\nTable \"b\" {\n    \"a id\" int [ref: > \"a\".\"id\", not null]\n    \"x\" int [ref: - \"a\".\"id\"]\n}\n\nRef {\n    \"b\".\"a id\" < \"a\".\"id\"\n}" := by
   decide +kernel
 
 end C02
